@@ -25,7 +25,10 @@ def one(sname):
             pass
     d = os.path.join(HERE, 'seeded', sname)
     meta = json.load(open(os.path.join(d, 'meta.json')))
-    tmp = patched_tree(os.path.join(d, 'patch.diff'))
+    try:
+        tmp = patched_tree(os.path.join(d, 'patch.diff'))
+    except RuntimeError as exc:
+        return sname, meta, [], [f'DOES-NOT-APPLY: {str(exc)[:80]}']
     hits, errs = [], []
     try:
         an = report.Analysis(root=tmp)
